@@ -32,13 +32,13 @@ def stanzaArm : Act := .call "@case stanza.Message, stanza.Presence, *stanza.IQ"
 /-- one pass of Client.recv -/
 def clientPassOk (t : List Act) : Bool :=
   let goesOn := ends_ "continue" t
-  let routedAsync := cnt (.spawn "c.router.route") t
+  let routedAsync := cnt (.spawn "Client.router.route") t
   -- C05: exactly one hand-over per pass that goes on, none on a pass that returns; the only synchronous route call is
   -- the one of the stream-error arm (as the code is: recorded in DESIGN 12.12)
   (routedAsync == (if goesOn then 1 else 0)) &&
   (cnt (.call "Router.route") t == (if t.contains (.call "@case stanza.StreamError") then 1 else 0)) &&
   -- C09: counted exactly on the stanza arm, once
-  (cnt (.call "inc c.Session.SMState.Inbound") t == (if t.contains stanzaArm then 1 else 0)) &&
+  (cnt (.call "inc Client.Session.SMState.Inbound") t == (if t.contains stanzaArm then 1 else 0)) &&
   -- C05 / C10: an <r/> is answered by exactly one Send, on its arm; no other arm sends
   (cnt (.call "Client.Send") t == (if t.contains (.call "@case stanza.SMRequest") then 1 else 0)) &&
   -- C12: a pass that returns reports the loss exactly once; a pass that goes on reports nothing
@@ -101,9 +101,9 @@ theorem keepalive_pass_every_run :
 
 -- not vacuous: the predicates refuse a counter incremented on the <r/> arm, a pass that routes twice, a quit arm that closes
 example : clientPassOk [.call "stanza.NextPacket", .call "@case stanza.SMRequest", .call "Client.Send",
-    .call "inc c.Session.SMState.Inbound", .spawn "c.router.route", .call "continue"] = false := by decide +kernel
-example : clientPassOk [.call "stanza.NextPacket", stanzaArm, .call "inc c.Session.SMState.Inbound",
-    .spawn "c.router.route", .call "continue"] = true := by decide +kernel
+    .call "inc Client.Session.SMState.Inbound", .spawn "Client.router.route", .call "continue"] = false := by decide +kernel
+example : clientPassOk [.call "stanza.NextPacket", stanzaArm, .call "inc Client.Session.SMState.Inbound",
+    .spawn "Client.router.route", .call "continue"] = true := by decide +kernel
 example : keepalivePassOk [.call "<-quit", .call "Ticker.Stop", .call "Transport.Close", .call "return "] = false := by decide +kernel
 example : ((iterTraces (body "Client.recv")).map fun ts => decide (6 ≤ ts.length)) = some true := by decide
 
